@@ -265,6 +265,33 @@ func emitC11Doc(out *Out, r *Rng) {
 			}
 		}
 	}
+	// ... and positions other than 0 where the document has no array at all: a single value is the only member there is
+	// (in front of the whole path, after a single-valued property, after the last term of a path to a literal)
+	nSingle := 0
+	for _, lp := range append([]leafPath{}, lps...) {
+		if lp.mustFail || (lp.lit == nil && lp.ref == "") || nSingle >= 3 {
+			continue
+		}
+		var spots []int // a position may be inserted before segment i (i = len: after the last) when no index stands there already
+		for i := 0; i <= len(lp.dotted); i++ {
+			prevNum := i > 0 && lp.dotted[i-1] != "" && lp.dotted[i-1][0] >= '0' && lp.dotted[i-1][0] <= '9'
+			nextNum := i < len(lp.dotted) && lp.dotted[i] != "" && lp.dotted[i][0] >= '0' && lp.dotted[i][0] <= '9'
+			if !prevNum && !nextNum {
+				spots = append(spots, i)
+			}
+		}
+		if len(spots) == 0 {
+			continue
+		}
+		at := spots[g.r.Intn(len(spots))]
+		pos := fmt.Sprint(1 + g.r.Intn(3))
+		if g.r.Chance(30) {
+			pos = fmt.Sprint(10 + g.r.Intn(1000))
+		}
+		d := append(append(append([]string{}, lp.dotted[:at]...), pos), lp.dotted[at:]...)
+		lps = append(lps, leafPath{dotted: d, viaArr: true, mustFail: true})
+		nSingle++
+	}
 	rootType := g.sch.Root.Name
 	for _, lp := range lps {
 		dotted := strings.Join(lp.dotted, ".")
@@ -289,7 +316,7 @@ func emitC11Doc(out *Out, r *Rng) {
 				if lp.viaArr {
 					// a numeric segment selects *a* member: the resolved key must be a stored key of this field
 					fieldStored := erased[strings.Join(erase(rp.Parts()), " ")]
-					if fieldStored && !stored {
+					if fieldStored && !stored && !lp.mustFail {
 						// the field is stored, but not under these positions (known finding F1: positions in dotted paths count
 						// all members in document order; stored indices number literal and node siblings separately, in canonical order)
 						posFail = true
@@ -300,7 +327,7 @@ func emitC11Doc(out *Out, r *Rng) {
 					why = append(why, fmt.Sprintf("path %s resolves to %v, under which nothing is stored", dotted, rp.Parts()))
 				}
 				if lp.mustFail {
-					why = append(why, fmt.Sprintf("path %s names a position beyond the end of the array but resolves to %v instead of an error", dotted, rp.Parts()))
+					why = append(why, fmt.Sprintf("path %s names a position beyond the end of the array (or a position other than 0 of a single value) but resolves to %v instead of an error", dotted, rp.Parts()))
 				}
 			} else if lp.lit != nil || lp.ref != "" {
 				why = append(why, fmt.Sprintf("existing field %s cannot be resolved from the document: %v", dotted, err))
